@@ -323,7 +323,8 @@ def obligations(tier):
                 for nd in ((1, 3) if quick else (1, 2, 3, 5)):
                     for c in (("plain", "seq", "tight") if quick else ctxs):
                         obs.append(Based(dialect=d, radix=r, pos=pos, sign=sign, nd=nd, ctx=c))
-        shapes = ["d", "sd", "ddd", "sd.d", "d.", ".d", "sd.dEsd", "dEd", "sd.de-d"] + ([] if quick else ["dddddd", "s.dd", "d.dddE+dd"])
+        shapes = ["d", "sd", "ddd", "sd.d", "d.", ".d", "s.d", "sd.dEsd", "dEd", "sd.de-d", "d.Esd", "sd.e+d", ".dEsd"] + (
+            [] if quick else ["dddddd", "s.dd", "d.dddE+dd", "sdd.E-dd"])
         for sh in shapes:
             for c in (("plain", "seq", "semi", "set") if quick else ctxs):
                 if c == "set" and d in ("ODL", "PDS3") and False:
